@@ -124,7 +124,37 @@ func c59LenSize(n int) int {
 // ---- in-memory duplex
 
 type c59Half struct {
-	r, w *bytes.Buffer
+	r io.Reader
+	w *bytes.Buffer
+}
+
+// c59Trickle is the receiving side's transport (the io.Reader below the Conn's
+// bufio.Reader) with short reads: a Read returns at most max octets (0 = no
+// limit) and never crosses one of the stream offsets in cuts. The default
+// transport (no limit, no cuts) hands over everything that is available.
+type c59Trickle struct {
+	src  *bytes.Buffer
+	max  int
+	cuts []int // ascending
+	off  int
+}
+
+func (t *c59Trickle) Read(p []byte) (int, error) {
+	n := len(p)
+	if t.max > 0 && n > t.max {
+		n = t.max
+	}
+	for _, c := range t.cuts {
+		if c > t.off {
+			if c-t.off < n {
+				n = c - t.off
+			}
+			break
+		}
+	}
+	k, err := t.src.Read(p[:n])
+	t.off += k
+	return k, err
 }
 
 func (h c59Half) Read(p []byte) (int, error)  { return h.r.Read(p) }
@@ -136,10 +166,20 @@ type c59Link struct {
 	cli, srv *Conn
 }
 
-func c59NewLink() *c59Link {
+// c59NewLink joins a client and a server Conn; the transport read policy
+// (max, cuts) applies to the side that receives in direction dir.
+func c59NewLink(dir, max int, cuts []int) *c59Link {
 	l := &c59Link{c2s: new(bytes.Buffer), s2c: new(bytes.Buffer)}
-	l.cli = newHybiClientConn(&Config{Version: ProtocolVersionHybi13}, nil, c59Half{r: l.s2c, w: l.c2s})
-	l.srv = newHybiServerConn(&Config{Version: ProtocolVersionHybi13}, nil, c59Half{r: l.c2s, w: l.s2c}, &http.Request{})
+	var cliR, srvR io.Reader = l.s2c, l.c2s
+	if max > 0 || len(cuts) > 0 {
+		if dir == 0 {
+			srvR = &c59Trickle{src: l.c2s, max: max, cuts: cuts}
+		} else {
+			cliR = &c59Trickle{src: l.s2c, max: max, cuts: cuts}
+		}
+	}
+	l.cli = newHybiClientConn(&Config{Version: ProtocolVersionHybi13}, nil, c59Half{r: cliR, w: l.c2s})
+	l.srv = newHybiServerConn(&Config{Version: ProtocolVersionHybi13}, nil, c59Half{r: srvR, w: l.s2c}, &http.Request{})
 	return l
 }
 
@@ -164,6 +204,35 @@ type c59Case struct {
 	Items []c59Item `json:"items"`
 	Max   int       `json:"max_payload"`
 	RBuf  int       `json:"read_buf"`
+	Chunk int       `json:"transport_read_max,omitempty"` // receiver's transport returns at most this many octets per Read (0 = all available)
+	Cuts  []int     `json:"transport_cuts,omitempty"`     // stream offsets that no transport Read crosses
+}
+
+func (x c59Case) short() bool { return x.Chunk > 0 || len(x.Cuts) > 0 }
+
+func (x c59Case) where() string { return c59DirName(x.Dir) + c59Policy(x.Chunk, x.Cuts) }
+
+func (x c59Frag) where() string { return c59DirName(x.Dir) + c59Policy(x.Chunk, nil) }
+
+func (x c59Mask) where() string { return c59DirName(x.Dir) }
+
+func c59Policy(max int, cuts []int) string {
+	s := ""
+	if max > 0 {
+		s += fmt.Sprintf(" [transport reads <= %d octets]", max)
+	}
+	if len(cuts) > 0 {
+		s += fmt.Sprintf(" [transport reads end at stream offsets %v]", cuts)
+	}
+	return s
+}
+
+// c59Sig appends the abstract transport situation to a signature.
+func c59Sig(sig string, short bool) string {
+	if short {
+		return sig + ":short-transport-reads"
+	}
+	return sig
 }
 
 func c59Payload(it c59Item, idx int) []byte {
@@ -230,7 +299,7 @@ func c59Send(w *vx.W, x c59Case, l *c59Link) bool {
 			var n int
 			n, err = snd.Write(p)
 			if err == nil && n != len(p) {
-				w.Failf("C59/send/short-write", "%s item %d: Write(%d bytes) = %d", c59DirName(x.Dir), i, len(p), n)
+				w.Failf("C59/send/short-write", "%s item %d: Write(%d bytes) = %d", x.where(), i, len(p), n)
 				return false
 			}
 		case x.Mode == "json":
@@ -241,17 +310,17 @@ func c59Send(w *vx.W, x c59Case, l *c59Link) bool {
 			err = Message.Send(snd, p)
 		}
 		if err != nil {
-			w.Failf("C59/send/error", "%s item %d (%c,%d): %v", c59DirName(x.Dir), i, it.K, it.N, err)
+			w.Failf("C59/send/error", "%s item %d (%c,%d): %v", x.where(), i, it.K, it.N, err)
 			return false
 		}
 	}
 	frames, err := c59Decode(wire.Bytes())
 	if err != nil {
-		w.Failf("C59/wire/undecodable", "%s %v: the sender's output does not decode as RFC 6455 frames: %v", c59DirName(x.Dir), x.Items, err)
+		w.Failf("C59/wire/undecodable", "%s %v: the sender's output does not decode as RFC 6455 frames: %v", x.where(), x.Items, err)
 		return false
 	}
 	if len(frames) != len(x.Items) {
-		w.Failf("C59/wire/frame-count", "%s %v: %d frames on the wire for %d messages", c59DirName(x.Dir), x.Items, len(frames), len(x.Items))
+		w.Failf("C59/wire/frame-count", "%s %v: %d frames on the wire for %d messages", x.where(), x.Items, len(frames), len(x.Items))
 		return false
 	}
 	for i, it := range x.Items {
@@ -260,7 +329,7 @@ func c59Send(w *vx.W, x c59Case, l *c59Link) bool {
 		if x.Mode == "json" && it.K != 'p' {
 			want, _ = json.Marshal(string(want))
 		}
-		where := fmt.Sprintf("%s frame %d of %v", c59DirName(x.Dir), i, x.Items)
+		where := fmt.Sprintf("%s frame %d of %v", x.where(), i, x.Items)
 		switch {
 		case f.Masked != sndIsClient && sndIsClient:
 			w.Failf("C59/wire/mask-bit:client-frame-unmasked", "%s: MASK=0", where)
@@ -287,7 +356,7 @@ func c59Pongs(w *vx.W, x c59Case, l *c59Link) bool {
 	_, _, _, back, sndIsClient := l.ends(x.Dir)
 	frames, err := c59Decode(back.Bytes())
 	if err != nil {
-		w.Failf("C59/ping/reply-undecodable", "%s %v: the receiver's output does not decode: %v", c59DirName(x.Dir), x.Items, err)
+		w.Failf(c59Sig("C59/ping/reply-undecodable", x.short()), "%s %v: the receiver's output does not decode: %v", x.where(), x.Items, err)
 		return false
 	}
 	var pings [][]byte
@@ -297,17 +366,17 @@ func c59Pongs(w *vx.W, x c59Case, l *c59Link) bool {
 		}
 	}
 	if len(frames) != len(pings) {
-		w.Failf("C59/ping/pong-count", "%s %v: receiver wrote %d frames for %d pings", c59DirName(x.Dir), x.Items, len(frames), len(pings))
+		w.Failf(c59Sig("C59/ping/pong-count", x.short()), "%s %v: receiver wrote %d frames for %d pings", x.where(), x.Items, len(frames), len(pings))
 		return false
 	}
 	for i, f := range frames {
 		switch {
 		case f.Op != PongFrame || !f.Fin:
-			w.Failf("C59/ping/not-a-pong", "%s %v: reply %d has opcode %d FIN=%v", c59DirName(x.Dir), x.Items, i, f.Op, f.Fin)
+			w.Failf(c59Sig("C59/ping/not-a-pong", x.short()), "%s %v: reply %d has opcode %d FIN=%v", x.where(), x.Items, i, f.Op, f.Fin)
 		case !bytes.Equal(f.Payload, pings[i]):
-			w.Failf("C59/ping/pong-payload", "%s %v: pong %d carries %s, ping carried %s", c59DirName(x.Dir), x.Items, i, c59Short(f.Payload), c59Short(pings[i]))
+			w.Failf(c59Sig("C59/ping/pong-payload", x.short()), "%s %v: pong %d carries %s, ping carried %s", x.where(), x.Items, i, c59Short(f.Payload), c59Short(pings[i]))
 		case f.Masked == sndIsClient:
-			w.Failf("C59/ping/pong-mask", "%s %v: pong %d has MASK=%v", c59DirName(x.Dir), x.Items, i, f.Masked)
+			w.Failf(c59Sig("C59/ping/pong-mask", x.short()), "%s %v: pong %d has MASK=%v", x.where(), x.Items, i, f.Masked)
 		default:
 			continue
 		}
@@ -317,7 +386,7 @@ func c59Pongs(w *vx.W, x c59Case, l *c59Link) bool {
 }
 
 func c59CheckCodec(w *vx.W, x c59Case) {
-	l := c59NewLink()
+	l := c59NewLink(x.Dir, x.Chunk, x.Cuts)
 	if !c59Send(w, x, l) {
 		return
 	}
@@ -333,7 +402,7 @@ func c59CheckCodec(w *vx.W, x c59Case) {
 			continue
 		}
 		want := c59Payload(it, i)
-		where := fmt.Sprintf("%s message %d of %v (limit %d)", c59DirName(x.Dir), i, x.Items, x.Max)
+		where := fmt.Sprintf("%s message %d of %v (limit %d)", x.where(), i, x.Items, x.Max)
 		after := ""
 		if tooLarge {
 			after = ":after-oversized"
@@ -342,11 +411,11 @@ func c59CheckCodec(w *vx.W, x c59Case) {
 			var got string
 			err := JSON.Receive(rcv, &got)
 			if err != nil {
-				w.Failf("C59/receive/json-error", "%s: %v", where, err)
+				w.Failf(c59Sig("C59/receive/json-error", x.short()), "%s: %v", where, err)
 				return
 			}
 			if got != string(want) {
-				w.Failf("C59/receive/json-value", "%s: got %d-byte string, want %d-byte string", where, len(got), len(want))
+				w.Failf(c59Sig("C59/receive/json-value", x.short()), "%s: got %d-byte string, want %d-byte string", where, len(got), len(want))
 				return
 			}
 			continue
@@ -355,28 +424,28 @@ func c59CheckCodec(w *vx.W, x c59Case) {
 		err := c59Capture.Receive(rcv, &r)
 		if len(want) > limit {
 			if err != ErrFrameTooLarge {
-				w.Failf("C59/receive/oversized-not-refused"+after, "%s: Receive = %v (payload %s), want ErrFrameTooLarge", where, err, c59Short(r.Data))
+				w.Failf(c59Sig("C59/receive/oversized-not-refused"+after, x.short()), "%s: Receive = %v (payload %s), want ErrFrameTooLarge", where, err, c59Short(r.Data))
 				return
 			}
 			tooLarge = true
 			continue
 		}
 		if err != nil {
-			w.Failf("C59/receive/error"+after, "%s: Receive: %v", where, err)
+			w.Failf(c59Sig("C59/receive/error"+after, x.short()), "%s: Receive: %v", where, err)
 			return
 		}
 		if r.T != c59Op(it.K) {
-			w.Failf("C59/receive/payload-type"+after, "%s: payload type %d, want %d", where, r.T, c59Op(it.K))
+			w.Failf(c59Sig("C59/receive/payload-type"+after, x.short()), "%s: payload type %d, want %d", where, r.T, c59Op(it.K))
 			return
 		}
 		if !bytes.Equal(r.Data, want) {
-			w.Failf("C59/receive/bytes"+after, "%s: got %s, want %s", where, c59Short(r.Data), c59Short(want))
+			w.Failf(c59Sig("C59/receive/bytes"+after, x.short()), "%s: got %s, want %s", where, c59Short(r.Data), c59Short(want))
 			return
 		}
 	}
 	var r c59Rec
 	if err := c59Capture.Receive(rcv, &r); err != io.EOF {
-		w.Failf("C59/receive/extra-or-missing-end", "%s %v: Receive after the last message = %v (type %d, %s), want io.EOF", c59DirName(x.Dir), x.Items, err, r.T, c59Short(r.Data))
+		w.Failf(c59Sig("C59/receive/extra-or-missing-end", x.short()), "%s %v: Receive after the last message = %v (type %d, %s), want io.EOF", x.where(), x.Items, err, r.T, c59Short(r.Data))
 		return
 	}
 	if !c59Pongs(w, x, l) {
@@ -388,13 +457,15 @@ func c59CheckCodec(w *vx.W, x c59Case) {
 		w.Outcome("oversized-refused")
 	case x.Mode == "json":
 		w.Outcome("json")
+	case x.short():
+		w.Outcome("delivered/short-transport-reads")
 	default:
 		w.Outcome("delivered")
 	}
 }
 
 func c59CheckRaw(w *vx.W, x c59Case) {
-	l := c59NewLink()
+	l := c59NewLink(x.Dir, x.Chunk, x.Cuts)
 	if !c59Send(w, x, l) {
 		return
 	}
@@ -419,17 +490,17 @@ func c59CheckRaw(w *vx.W, x c59Case) {
 		k, err := rcv.Read(buf)
 		if k > 0 {
 			if rcv.frameReader == nil {
-				w.Failf("C59/raw-read/no-current-frame", "%s %v: Read returned %d bytes without a current frame", c59DirName(x.Dir), x.Items, k)
+				w.Failf(c59Sig("C59/raw-read/no-current-frame", x.short()), "%s %v: Read returned %d bytes without a current frame", x.where(), x.Items, k)
 				return
 			}
 			pt := rcv.frameReader.PayloadType()
 			if len(got)+k > len(want) {
-				w.Failf("C59/raw-read/too-many-bytes", "%s %v: read %d bytes, only %d were sent", c59DirName(x.Dir), x.Items, len(got)+k, len(want))
+				w.Failf(c59Sig("C59/raw-read/too-many-bytes", x.short()), "%s %v: read %d bytes, only %d were sent", x.where(), x.Items, len(got)+k, len(want))
 				return
 			}
 			for j := 0; j < k; j++ {
 				if wantT[len(got)+j] != pt {
-					w.Failf("C59/raw-read/payload-type", "%s %v: octet %d delivered with payload type %d, want %d", c59DirName(x.Dir), x.Items, len(got)+j, pt, wantT[len(got)+j])
+					w.Failf(c59Sig("C59/raw-read/payload-type", x.short()), "%s %v: octet %d delivered with payload type %d, want %d", x.where(), x.Items, len(got)+j, pt, wantT[len(got)+j])
 					return
 				}
 			}
@@ -439,23 +510,94 @@ func c59CheckRaw(w *vx.W, x c59Case) {
 			break
 		}
 		if err != nil {
-			w.Failf("C59/raw-read/error", "%s %v: Read: %v after %d bytes", c59DirName(x.Dir), x.Items, err, len(got))
+			w.Failf(c59Sig("C59/raw-read/error", x.short()), "%s %v: Read: %v after %d bytes", x.where(), x.Items, err, len(got))
 			return
 		}
 		if k == 0 {
-			w.Failf("C59/raw-read/zero-progress", "%s %v: Read returned 0, nil", c59DirName(x.Dir), x.Items)
+			w.Failf(c59Sig("C59/raw-read/zero-progress", x.short()), "%s %v: Read returned 0, nil", x.where(), x.Items)
 			return
 		}
 	}
 	if !bytes.Equal(got, want) {
-		w.Failf("C59/raw-read/bytes", "%s %v: read %d bytes, want %d; first difference at %d", c59DirName(x.Dir), x.Items, len(got), len(want), c59Diff(got, want))
+		w.Failf(c59Sig("C59/raw-read/bytes", x.short()), "%s %v: read %d bytes, want %d; first difference at %d", x.where(), x.Items, len(got), len(want), c59Diff(got, want))
 		return
 	}
 	if !c59Pongs(w, x, l) {
 		return
 	}
 	w.Nontrivial()
+	if x.short() {
+		w.Outcome(fmt.Sprintf("raw-read/buf=%d/short-transport-reads", x.RBuf))
+		return
+	}
 	w.Outcome(fmt.Sprintf("raw-read/buf=%d", x.RBuf))
+}
+
+// ---- short transport reads
+
+// c59Layout returns the [start, end) stream offsets of the frames that carry
+// items in direction dir (Message/raw mode: one frame per item), computed from
+// RFC 6455 5.2 alone: 2 octets, the extended length, the masking key for client
+// frames, the payload.
+func c59Layout(dir int, items []c59Item) (starts, ends []int) {
+	off := 0
+	for _, it := range items {
+		starts = append(starts, off)
+		off += 1 + c59LenSize(it.N) + it.N
+		if dir == 0 {
+			off += 4
+		}
+		ends = append(ends, off)
+	}
+	return
+}
+
+// c59CutOffsets lists every stream offset 0 < o < total that lies inside a
+// PING frame or within 20 octets of a frame boundary (this covers every octet
+// of every frame header, extended length and masking key, and for frames of
+// <= 40 octets every octet of the frame).
+func c59CutOffsets(dir int, items []c59Item) []int {
+	starts, ends := c59Layout(dir, items)
+	total := ends[len(ends)-1]
+	var out []int
+	for o := 1; o < total; o++ {
+		for i, it := range items {
+			s, e := starts[i], ends[i]
+			if (o >= s && o <= s+20) || (o >= e-20 && o <= e) || (it.K == 'p' && o > s && o < e) {
+				out = append(out, o)
+				break
+			}
+		}
+	}
+	return out
+}
+
+// c59ShortGen yields, for every direction, read buffer and item sequence, the
+// capped-read policies (every transport Read returns at most 1 / 3 / 7 octets)
+// and one case per single cut offset of c59CutOffsets.
+func c59ShortGen(mode string, alphabet []c59Item, minLen, maxLen int, rbufs []int) func(func(c59Case) bool) {
+	return func(yield func(c59Case) bool) {
+		for _, dir := range []int{0, 1} {
+			for _, rb := range rbufs {
+				ok := vx.Strings(alphabet, minLen, maxLen, func(items []c59Item) bool {
+					for _, ch := range []int{1, 3, 7} {
+						if !yield(c59Case{Dir: dir, Mode: mode, Items: items, RBuf: rb, Chunk: ch}) {
+							return false
+						}
+					}
+					for _, o := range c59CutOffsets(dir, items) {
+						if !yield(c59Case{Dir: dir, Mode: mode, Items: items, RBuf: rb, Cuts: []int{o}}) {
+							return false
+						}
+					}
+					return true
+				})
+				if !ok {
+					return
+				}
+			}
+		}
+	}
 }
 
 func c59Diff(a, b []byte) int {
@@ -476,10 +618,11 @@ type c59Frag struct {
 	Pings []bool `json:"ping_before_fragment"` // [i]: a PING precedes fragment i (i>=1), last entry: after the final fragment
 	Raw   bool   `json:"raw_read"`
 	Tail  bool   `json:"followed_by_message"`
+	Chunk int    `json:"transport_read_max,omitempty"` // receiver's transport returns at most this many octets per Read (0 = all available)
 }
 
 func c59CheckFrag(w *vx.W, x c59Frag) {
-	l := c59NewLink()
+	l := c59NewLink(x.Dir, x.Chunk, nil)
 	_, rcv, wire, back, sndIsClient := l.ends(x.Dir)
 	op := byte(TextFrame)
 	if x.Bin {
@@ -522,7 +665,7 @@ func c59CheckFrag(w *vx.W, x c59Frag) {
 		wire.Write(c59Encode(true, tailOp, sndIsClient, tail))
 		pieces = append(pieces, piece{tailOp, tail})
 	}
-	where := fmt.Sprintf("%s %+v", c59DirName(x.Dir), x)
+	where := fmt.Sprintf("%s %+v", x.where(), x)
 	if x.Raw {
 		var got []byte
 		buf := make([]byte, 7)
@@ -535,7 +678,7 @@ func c59CheckFrag(w *vx.W, x c59Frag) {
 					wantT = tailOp
 				}
 				if pt != wantT {
-					w.Failf("C59/fragment/raw-payload-type", "%s: octet %d delivered with payload type %d, want %d", where, len(got), pt, wantT)
+					w.Failf(c59Sig("C59/fragment/raw-payload-type", x.Chunk > 0), "%s: octet %d delivered with payload type %d, want %d", where, len(got), pt, wantT)
 					return
 				}
 				got = append(got, buf[:k]...)
@@ -544,12 +687,12 @@ func c59CheckFrag(w *vx.W, x c59Frag) {
 				break
 			}
 			if err != nil || k == 0 {
-				w.Failf("C59/fragment/raw-error", "%s: Read = %d, %v", where, k, err)
+				w.Failf(c59Sig("C59/fragment/raw-error", x.Chunk > 0), "%s: Read = %d, %v", where, k, err)
 				return
 			}
 		}
 		if !bytes.Equal(got, append(append([]byte(nil), whole...), tail...)) {
-			w.Failf("C59/fragment/raw-bytes", "%s: read %s, want %s", where, c59Short(got), c59Short(append(whole, tail...)))
+			w.Failf(c59Sig("C59/fragment/raw-bytes", x.Chunk > 0), "%s: read %s, want %s", where, c59Short(got), c59Short(append(whole, tail...)))
 			return
 		}
 	} else {
@@ -557,32 +700,32 @@ func c59CheckFrag(w *vx.W, x c59Frag) {
 		for i, pc := range pieces {
 			var r c59Rec
 			if err := c59Capture.Receive(rcv, &r); err != nil {
-				w.Failf("C59/fragment/receive-error", "%s: piece %d: %v", where, i, err)
+				w.Failf(c59Sig("C59/fragment/receive-error", x.Chunk > 0), "%s: piece %d: %v", where, i, err)
 				return
 			}
 			if r.T != pc.t {
-				w.Failf("C59/fragment/payload-type", "%s: piece %d has payload type %d, want %d", where, i, r.T, pc.t)
+				w.Failf(c59Sig("C59/fragment/payload-type", x.Chunk > 0), "%s: piece %d has payload type %d, want %d", where, i, r.T, pc.t)
 				return
 			}
 			if !bytes.Equal(r.Data, pc.d) {
-				w.Failf("C59/fragment/bytes", "%s: piece %d = %s, want %s", where, i, c59Short(r.Data), c59Short(pc.d))
+				w.Failf(c59Sig("C59/fragment/bytes", x.Chunk > 0), "%s: piece %d = %s, want %s", where, i, c59Short(r.Data), c59Short(pc.d))
 				return
 			}
 		}
 		var r c59Rec
 		if err := c59Capture.Receive(rcv, &r); err != io.EOF {
-			w.Failf("C59/fragment/end", "%s: Receive after the last piece = %v, want io.EOF", where, err)
+			w.Failf(c59Sig("C59/fragment/end", x.Chunk > 0), "%s: Receive after the last piece = %v, want io.EOF", where, err)
 			return
 		}
 	}
 	frames, err := c59Decode(back.Bytes())
 	if err != nil || len(frames) != len(pings) {
-		w.Failf("C59/ping/pong-count", "%s: receiver wrote %d frames (%v) for %d pings", where, len(frames), err, len(pings))
+		w.Failf(c59Sig("C59/ping/pong-count", x.Chunk > 0), "%s: receiver wrote %d frames (%v) for %d pings", where, len(frames), err, len(pings))
 		return
 	}
 	for i, f := range frames {
 		if f.Op != PongFrame || !bytes.Equal(f.Payload, pings[i]) || f.Masked == sndIsClient {
-			w.Failf("C59/ping/pong-payload", "%s: reply %d = opcode %d MASK=%v %q, want a pong with %q", where, i, f.Op, f.Masked, f.Payload, pings[i])
+			w.Failf(c59Sig("C59/ping/pong-payload", x.Chunk > 0), "%s: reply %d = opcode %d MASK=%v %q, want a pong with %q", where, i, f.Op, f.Masked, f.Payload, pings[i])
 			return
 		}
 	}
@@ -601,14 +744,14 @@ type c59Mask struct {
 }
 
 func c59CheckMask(w *vx.W, x c59Mask) {
-	l := c59NewLink()
+	l := c59NewLink(x.Dir, 0, nil)
 	_, rcv, wire, back, sndIsClient := l.ends(x.Dir)
 	for i := 0; i < x.Pos; i++ {
 		wire.Write(c59Encode(true, BinaryFrame, sndIsClient, []byte{byte(i)}))
 	}
 	bad := c59Payload(c59Item{K: 'b', N: x.N}, 9)
 	wire.Write(c59Encode(true, x.Op, !sndIsClient, bad)) // wrong masking for the sender's role
-	where := fmt.Sprintf("%s %+v", c59DirName(x.Dir), x)
+	where := fmt.Sprintf("%s %+v", x.where(), x)
 	kind := "unmasked-client-frame"
 	if !sndIsClient {
 		kind = "masked-server-frame"
@@ -672,7 +815,8 @@ func TestVerif_C59(t *testing.T) {
 
 		c.Rule("codec: both directions x every sequence of <= 2 items (thorough: <= 3) over {text, binary} x payload length {0,1,125,126,127,65535,65536,70000} plus PING (0, 5, 125 octets, spliced in by an independent encoder) x MaxPayloadBytes {0,10,126,65536}; quick adds length-3 sequences over a 6-item sub-alphabet with limits {0,126}. Sender = real Conn via Message.Send; the wire image is decoded by an independent RFC 6455 codec (MASK bit by role, FIN/RSV, opcode, minimal length encoding, unmasked payload); receiver = real Conn via Codec.Receive with a type-capturing codec; oversized => ErrFrameTooLarge and the following messages intact; every PING answered by one PONG with the same payload; non-trivial = whole sequence sent, wire-checked, received and compared")
 		c.Rule("raw: the same with Conn.Write / Conn.Read and read buffers {1, 100, 128 KiB}: the octet stream and the payload type of every octet; json: JSON codec over the length boundaries; fragment: peer-encoded messages of 2..3 fragments of {0,1,126} octets, every placement of PINGs between/after fragments, read per frame (Codec.Receive) and as a stream (Read), optionally followed by a message of the other type; mask: an unmasked client frame / masked server frame (text, binary, ping, continuation; after 0..2 good messages) must make Receive/Read fail")
-		c.Assume("one goroutine, in-memory byte buffers as transport (a read at the end of the buffered stream returns io.EOF instead of blocking); masking keys are random: only MASK bit and unmasked payload are compared")
+		c.Rule("short-read (default transport = every Read returns all available octets; deviations on the receiver's transport, the io.Reader below its bufio.Reader): both directions x every sequence of <= 2 items (thorough: <= 3) over {text 5, binary 1, binary 126, text 65536, PING 0, 1, 2, 100, 125}, quick adds the length-3 sequences over {text 5, binary 1, PING 1, 2, 100, 125}, x { every transport Read returns at most 1 / 3 / 7 octets; the stream is cut in two at one offset, for every offset inside a PING frame or within 20 octets of a frame boundary (= every octet of every header, extended length and masking key, every octet of frames <= 40 octets) }, received with Codec.Receive (short-read) and Conn.Read with a 3-octet and a 128 KiB buffer (raw-short); short-read-2cuts: text 5 | PING n | binary 5 for n in {1,2,100,125}, both directions, every pair of cut offsets of the whole stream. Same oracles: messages intact and typed, exactly one PONG per PING with the complete payload. fragment: additionally every transport Read capped at {1,3,7} octets")
+		c.Assume("one goroutine, in-memory byte buffers as transport (a read at the end of the buffered stream returns io.EOF instead of blocking; a short read returns >= 1 octet, never 0,nil); masking keys are random: only MASK bit and unmasked payload are compared")
 		c.Assume("Codec.Receive is documented to deliver one frame per call, so fragments are compared per frame; Conn.Read skips empty frames, so the raw oracle is the octet stream; text payloads are ASCII (UTF-8 validation is outside the property); handshake and Close are not exercised")
 
 		gen := func(mode string, alphabet []c59Item, maxLen int, maxes, rbufs []int) func(func(c59Case) bool) {
@@ -710,6 +854,29 @@ func TestVerif_C59(t *testing.T) {
 		if !c.Quick() {
 			vx.Enumerate(c, "raw-3", vx.Opts{NoSample: true}, gen("raw", small, 3, []int{0}, []int{100, 0}), c59CheckRaw)
 		}
+		shortAlpha := []c59Item{{'t', 5}, {'p', 1}, {'b', 1}, {'p', 100}, {'p', 2}, {'p', 125}, {'p', 0}, {'b', 126}, {'t', 65536}}
+		vx.Enumerate(c, "short-read", vx.Opts{NoSample: true}, c59ShortGen("codec", shortAlpha, 1, vx.Pick(c, 2, 3), []int{0}), c59CheckCodec)
+		if c.Quick() {
+			vx.Enumerate(c, "short-read-3", vx.Opts{NoSample: true}, c59ShortGen("codec", shortAlpha[:6], 3, 3, []int{0}), c59CheckCodec)
+		}
+		vx.Enumerate(c, "raw-short", vx.Opts{NoSample: true}, c59ShortGen("raw", shortAlpha, 1, vx.Pick(c, 2, 3), []int{3, 0}), c59CheckRaw)
+		vx.Enumerate(c, "short-read-2cuts", vx.Opts{NoSample: true}, func(yield func(c59Case) bool) {
+			for _, dir := range []int{0, 1} {
+				for _, n := range []int{1, 2, 100, 125} {
+					items := []c59Item{{'t', 5}, {'p', n}, {'b', 5}}
+					_, ends := c59Layout(dir, items)
+					total := ends[len(ends)-1]
+					for a := 1; a < total; a++ {
+						for b := a + 1; b < total; b++ {
+							if !yield(c59Case{Dir: dir, Mode: "codec", Items: items, Cuts: []int{a, b}}) {
+								return
+							}
+						}
+					}
+				}
+			}
+		}, c59CheckCodec)
+
 		var jsonItems []c59Item
 		for _, n := range []int{0, 1, 123, 124, 125, 65533, 65534, 70000} { // +2 quotes => 2,3,125,126,127,65535,65536
 			jsonItems = append(jsonItems, c59Item{'t', n})
@@ -721,21 +888,23 @@ func TestVerif_C59(t *testing.T) {
 				for _, bin := range []bool{false, true} {
 					for _, raw := range []bool{false, true} {
 						for _, tail := range []bool{false, true} {
-							for nf := 2; nf <= 3; nf++ {
-								ok := vx.Strings([]int{0, 1, 126}, nf, nf, func(ls []int) bool {
-									for m := 0; m < 1<<uint(nf); m++ {
-										pg := make([]bool, nf+1)
-										for i := 1; i <= nf; i++ {
-											pg[i] = m>>(uint(i)-1)&1 != 0
+							for _, ch := range []int{0, 1, 3, 7} {
+								for nf := 2; nf <= 3; nf++ {
+									ok := vx.Strings([]int{0, 1, 126}, nf, nf, func(ls []int) bool {
+										for m := 0; m < 1<<uint(nf); m++ {
+											pg := make([]bool, nf+1)
+											for i := 1; i <= nf; i++ {
+												pg[i] = m>>(uint(i)-1)&1 != 0
+											}
+											if !yield(c59Frag{Dir: dir, Bin: bin, Lens: ls, Pings: pg, Raw: raw, Tail: tail, Chunk: ch}) {
+												return false
+											}
 										}
-										if !yield(c59Frag{Dir: dir, Bin: bin, Lens: ls, Pings: pg, Raw: raw, Tail: tail}) {
-											return false
-										}
+										return true
+									})
+									if !ok {
+										return
 									}
-									return true
-								})
-								if !ok {
-									return
 								}
 							}
 						}
